@@ -763,7 +763,7 @@ theorem step_inv {s : St} (h : Inv s) (op : Op) : Inv (step s op).1 := by
       exact appendStep_inv h l hc.2
   | hold b => exact h
   | close => exact closeStep_inv h
-  | crash d =>
+  | crash d torn =>
     simp only [step]
     split
     · rename_i hc
